@@ -116,9 +116,11 @@ def run(ctx):
             continue
         complex_nonsym = bool(np.max(np.abs(v - v.T)) > 0.05 and np.max(np.abs((v / v.flat[np.argmax(np.abs(v))]).imag)) > 0.05)
         d = 2 ** n
-        scale_mode[0] = float(rng.choice([1.0, 1.0, 1e6, 1e-3, 12345.0]))
+        scale_mode[0] = float(rng.choice([1.0, 1.0, 1e6, 1e-3, 12345.0, 2e-9, 1e-13, 1e12]))
         if scale_mode[0] != 1.0:
             ctx.bucket("unnormalised_counts")
+            if scale_mode[0] < 1e-7:
+                ctx.bucket("tiny_total_weight")
         case = {"n": n, "base": log, "method": method, "base_presented_as": variant, "count_scale": scale_mode[0]}
         if n == 2 and ent:
             ctx.bucket("two_qubit_entangling")
